@@ -8,6 +8,9 @@ EXTENDS TraceBase, Summary
 VARIABLES l, ref
 vars == <<l, ref>>
 Ev == TheTrace[l]
+\* Growth = 1: additionally check behaviour the listed properties do not prescribe (what is printed in which mode, which file
+\* is written, the structure of the weight summary); a rejection in that pass is reported as a note, not as a violation.
+Growth == "GROWTH" \in DOMAIN IOEnv /\ IOEnv.GROWTH = "1"
 Init == l = 1 /\ ref = [run |-> -1, texts |-> <<>>, rets |-> <<>>, final |-> 0]
 
 Verbose(m) == m \in {2, 3}
@@ -21,8 +24,8 @@ LaneOK(e, r) ==
     /\ Len(e.texts) = Len(e.rets)
     /\ (Len(e.texts) > 0) => e.final = e.texts[Len(e.texts)]
     /\ e.printedOther = 0                                \* output on rank 0 only
-    /\ IF Verbose(e.mode) THEN e.printed0 > 0 ELSE e.printed0 = 0
-    /\ IF Writes(e.mode) /\ Len(e.texts) > 0 THEN e.fileText = e.final ELSE e.fileText = -1
+    /\ (Growth) => (IF Verbose(e.mode) THEN e.printed0 > 0 ELSE e.printed0 = 0)
+    /\ (Growth) => (IF Writes(e.mode) /\ Len(e.texts) > 0 THEN e.fileText = e.final ELSE e.fileText = -1)
 
 Lane ==
     /\ l <= TraceLen /\ Ev.e = "Lane"
@@ -39,10 +42,10 @@ SummaryEv ==
     /\ Ev.status = "ok"
     /\ LET e == Expected(Ev.w, Ev.S, Ev.N) IN
        /\ StructureOfOK(Ev.w, e)
-       /\ Ev.channels = e.channels /\ Ev.minCount = e.minCount
-       /\ PairsOf(Ev.minRuns) = e.minRuns
-       /\ Ev.printed = e.printed
-       /\ Ev.wmax = e.wmax
+       /\ (Growth) => /\ Ev.channels = e.channels /\ Ev.minCount = e.minCount
+                      /\ PairsOf(Ev.minRuns) = e.minRuns
+                      /\ Ev.printed = e.printed
+                      /\ Ev.wmax = e.wmax
     /\ ref' = ref /\ l' = l + 1
 Next == Lane \/ SummaryEv
 Spec == Init /\ [][Next]_vars
